@@ -36,3 +36,9 @@ def get_attrs(obj, names):
     for n in names:
         out.append(getattr(obj, n))
     return out
+
+
+def pad_align(intf, pad, data):
+    """set the write padding through the property, align, read the property back"""
+    intf.write_padding = pad
+    return [intf.data_align(data), intf.write_padding]
